@@ -242,10 +242,13 @@ where
     R: tokio::io::AsyncRead + Unpin,
 {
     let mut interval = tokio::time::interval(tokio::time::Duration::from_millis(FLUSH_INTERVAL_MS));
+    // The line being assembled. It must outlive a flush tick: `read_until` appends
+    // whatever it has read so far to this buffer, and when the tick wins the select
+    // that partially read line would otherwise be dropped with the cancelled future.
+    let mut buf = Vec::new();
     loop {
         let mut bufs = Vec::new();
         loop {
-            let mut buf = Vec::new();
             tokio::select! {
                 _ = token.cancelled() => {
                     process_bufs(&header, bufs, &compressor_client, &mut log_stream_client, true).await?;
@@ -254,11 +257,16 @@ where
                 res = reader.read_until(b'\n', &mut buf) => {
                     match res {
                         Ok(0) => {
+                            // end of stream; an earlier, interrupted read may have left
+                            // an unterminated tail in the buffer
+                            if !buf.is_empty() {
+                                bufs.push(std::mem::take(&mut buf));
+                            }
                             process_bufs(&header, bufs, &compressor_client, &mut log_stream_client, true).await?;
                             return Ok(());
                         },
                         Ok(_n) => {
-                            bufs.push(buf);
+                            bufs.push(std::mem::take(&mut buf));
                         }
                         Err(e) => {
                             process_bufs(&header, bufs, &compressor_client, &mut log_stream_client, true).await?;
